@@ -20,7 +20,7 @@ func init() {
 					return relabel("C10", oracleC01)(o)
 				}
 				return nil
-			}},
+			}, oracleC10Purge},
 		NonTrivial: func(o *Outcome) bool {
 			n := 0
 			for k, v := range o.Hist.FaultFired {
@@ -56,7 +56,9 @@ func init() {
 		Name:     "C08",
 		Property: "C08",
 		Gen:      genC08,
-		Oracles:  []func(o *Outcome) []Violation{oracleC08, livenessOracle("C08"), servedOracleStrict("C08"), respOracle("C08")},
+		Oracles: []func(o *Outcome) []Violation{oracleC08, livenessOracle("C08"), servedOracleStrict("C08"), respOracle("C08"),
+			// hit-for-pass markers are persisted under the same rules: never in force beyond their original period
+			relabelOnly("C08", oracleC07, "marker-outlives-period")},
 		NonTrivial: func(o *Outcome) bool {
 			return o.Hist.Probes["served-from-store-after-restart"]+o.Hist.Probes["path:hit-after-reload"] > 0
 		},
@@ -352,7 +354,7 @@ func oracleC09(o *Outcome) []Violation {
 			// undetectable without an integrity check; flips are checked for robustness only
 			continue
 		}
-		if v.Kind == "origin" && len(v.OwnUps) == 1 {
+		if v.Kind == "origin" && len(v.OwnUps) == 1 && v.XStatus != "hitForPass" {
 			o.Hist.Probes["final-probe-ok"]++
 			continue
 		}
@@ -528,6 +530,70 @@ func oracleC08(o *Outcome) []Violation {
 			}
 			if v.XStatus == "hitForPass" {
 				o.Hist.Probes["hit-for-pass-after-restart"]++
+			}
+		}
+	}
+	return out
+}
+
+// oracleC10Purge: purges keep working while the store misbehaves. A purge whose store
+// delete went through (possibly slowly) must be as effective as without faults (C18's
+// oracle); a purge whose delete was failed by the plan may leave the persisted copy behind
+// (stated relaxation) but must still drop the entry from memory.
+func oracleC10Purge(o *Outcome) []Violation {
+	failed := map[*MiscRec]bool{}
+	var okPurges []*MiscRec
+	for _, m := range o.Hist.Misc {
+		if m.Kind != "purge" {
+			okPurges = append(okPurges, m)
+			continue
+		}
+		bad := false
+		for _, s := range o.Hist.Stores {
+			if s.Task == m.Task && s.Op == "delete" && s.Fault != "" && !strings.HasPrefix(s.Fault, "delay") {
+				bad = true
+			}
+		}
+		if bad {
+			failed[m] = true
+		} else {
+			okPurges = append(okPurges, m)
+		}
+	}
+	saved := o.Hist.Misc
+	o.Hist.Misc = okPurges
+	var out []Violation
+	for _, v := range oracleC18(o) {
+		if v.Kind == "served-purged-entry" {
+			v.Property = "C10"
+			out = append(out, v)
+		}
+	}
+	o.Hist.Misc = saved
+	// memory must be purged even when the store delete failed
+	for m := range failed {
+		if m.ReturnSeq < 0 {
+			continue
+		}
+		for _, v := range o.Views() {
+			r := v.R
+			if r.Key != m.Key || v.Kind != "origin" || len(v.OwnUps) > 0 || v.Up.Req < 0 || r.InvokeSeq < m.ReturnSeq {
+				continue
+			}
+			f := o.Hist.Reqs[v.Up.Req]
+			if f == r || f.ReturnSeq < 0 || f.ReturnSeq > m.InvokeSeq {
+				continue
+			}
+			// served the purged reply: only acceptable if it came back from the store
+			reloaded := false
+			for _, s := range o.Hist.Stores {
+				if s.Op == "get" && s.Key == r.Key && s.CallSeq > m.ReturnSeq && s.CallSeq < r.ReturnSeq && s.OutLen > 0 {
+					reloaded = true
+				}
+			}
+			if !reloaded {
+				out = append(out, violation("C10", "purge-kept-memory-entry", "a purge whose store delete failed left the entry in memory",
+					"purge(key=%q) returned at seq %d (its store delete failed as planned); client op %d invoked at seq %d was still answered from reply #%d (fetched before the purge) although no record was read back from the store in between", m.Key, m.ReturnSeq, r.Op, r.InvokeSeq, v.Serial))
 			}
 		}
 	}
